@@ -35,6 +35,9 @@ type C04Case struct {
 	// Generated: every run gets the -generated flag (docs/configuration.md: lint as generated VCL); the generated
 	// programs carry their #FASTLY macros, so the flag must not change any verdict or count
 	Generated bool `json:"generated,omitempty"`
+	// DirBeforeInclude: a falco-ignore-end comment stands directly in front of an include statement
+	// (trigger of the known finding lint.ignore-comment-on-include-dropped)
+	DirBeforeInclude bool `json:"dir_before_include,omitempty"`
 }
 
 func init() {
@@ -108,6 +111,8 @@ func genC04(t *rapid.T) any {
 	feat := map[string]bool{}
 	n := 0
 	var present []string
+	// set before the main body is drawn: include statements will follow the drawn statements of vcl_recv
+	mainEndsWithInclude := false
 	lines := func(label string, indent string) []string {
 		var out []string
 		add := func(pool []string, cnt int, ignoreable bool) {
@@ -177,6 +182,51 @@ func genC04(t *rapid.T) any {
 				}
 			}
 		}
+		// a falco-ignore-start … falco-ignore-end range around a run of the statements behind the
+		// declarations; the end comment may be the last thing of the block (in front of its closing brace).
+		// At the top level of a file (module, snippet) the end comment has to be followed by a statement.
+		isDir := func(l string) bool { return strings.Contains(l, "falco-ignore") }
+		if len(rest) > 0 && rapid.IntRange(0, 5).Draw(t, label+"range") == 0 {
+			var starts []int
+			for i := range rest {
+				if i == 0 || !isDir(rest[i-1]) {
+					starts = append(starts, i)
+				}
+			}
+			p := rapid.SampledFrom(starts).Draw(t, label+"rangestart")
+			var ends []int
+			for j := p + 1; j <= len(rest); j++ {
+				if !isDir(rest[j-1]) && (j < len(rest) || indent != "") {
+					ends = append(ends, j)
+				}
+			}
+			// known finding lint.ignore-comment-on-include-dropped: the comments of an include statement are
+			// thrown away when the module is resolved, an end comment in front of it never closes the range.
+			// Excluded by construction in seven cases out of eight.
+			if label == "main" && mainEndsWithInclude && len(ends) > 0 && ends[len(ends)-1] == len(rest) {
+				if rapid.IntRange(0, 7).Draw(t, "end-before-include") > 0 {
+					ends = ends[:len(ends)-1]
+					feat["excluded:ignore-end-before-include"] = true
+				} else {
+					c.DirBeforeInclude = true
+				}
+			}
+			if len(ends) > 0 {
+				q := rapid.SampledFrom(ends).Draw(t, label+"rangeend")
+				marker := rapid.SampledFrom([]string{"// %s", "# %s", "/* %s */"}).Draw(t, label+"rangemarker")
+				var nr []string
+				nr = append(nr, rest[:p]...)
+				nr = append(nr, indent+fmt.Sprintf(marker, "falco-ignore-start"))
+				nr = append(nr, rest[p:q]...)
+				nr = append(nr, indent+fmt.Sprintf(marker, "falco-ignore-end"))
+				nr = append(nr, rest[q:]...)
+				rest = nr
+				feat["ignore-range"] = true
+				if q == len(rest)-2 {
+					feat["ignore-range-ends-block"] = true
+				}
+			}
+		}
 		return append(decl, rest...)
 	}
 	syntax := func(where string) string {
@@ -195,6 +245,11 @@ func genC04(t *rapid.T) any {
 		incs = []string{rapid.SampledFrom(incKinds).Draw(t, "include")}
 	default:
 		incs = []string{rapid.SampledFrom(incKinds).Draw(t, "include"), rapid.SampledFrom(incKinds).Draw(t, "include2")}
+	}
+	for _, inc := range incs {
+		if strings.HasPrefix(inc, "stmt") || inc == "missing" {
+			mainEndsWithInclude = true
+		}
 	}
 	var body []string
 	if snippet {
@@ -270,7 +325,7 @@ func genC04(t *rapid.T) any {
 			// no directives in such a main file
 			var kept []string
 			for _, l := range body {
-				if !strings.Contains(l, "falco-ignore-next-line") {
+				if !strings.Contains(l, "falco-ignore") {
 					kept = append(kept, l)
 				}
 			}
@@ -542,6 +597,29 @@ func checkC04(raw json.RawMessage) iso.Result {
 	covered := map[string]map[int]*c04Cover{}
 	strip := func(rel, data string) string {
 		ls := strings.Split(data, "\n")
+		cover := func(line int) *c04Cover {
+			if covered[filepath.Base(rel)] == nil {
+				covered[filepath.Base(rel)] = map[int]*c04Cover{}
+			}
+			if covered[filepath.Base(rel)][line] == nil {
+				covered[filepath.Base(rel)][line] = &c04Cover{rules: map[string]bool{}}
+			}
+			return covered[filepath.Base(rel)][line]
+		}
+		// ranges first: every line between a start and an end comment is covered for every rule
+		inRange := false
+		for i := range ls {
+			switch {
+			case strings.Contains(ls[i], "falco-ignore-start"):
+				inRange = true
+				ls[i] = strings.Replace(ls[i], "falco-ignore-start", "an ordinary comment", 1)
+			case strings.Contains(ls[i], "falco-ignore-end"):
+				inRange = false
+				ls[i] = strings.Replace(ls[i], "falco-ignore-end", "an ordinary comment", 1)
+			case inRange:
+				cover(i + 1).all = true
+			}
+		}
 		for i := 0; i < len(ls); i++ {
 			if !strings.Contains(ls[i], "falco-ignore-next-line") {
 				continue
@@ -563,10 +641,12 @@ func checkC04(raw json.RawMessage) iso.Result {
 				ls[j] = strings.Replace(ls[j], "falco-ignore-next-line", "an ordinary comment", 1)
 				j++
 			}
-			if covered[filepath.Base(rel)] == nil {
-				covered[filepath.Base(rel)] = map[int]*c04Cover{}
+			// line numbers are 1-based: ls[j] is line j+1 (merged with the cover of a range around it)
+			tgt := cover(j + 1)
+			tgt.all = tgt.all || cv.all
+			for r := range cv.rules {
+				tgt.rules[r] = true
 			}
-			covered[filepath.Base(rel)][j+1] = cv // line numbers are 1-based: ls[j] is line j+1
 			i = j
 		}
 		return strings.Join(ls, "\n")
@@ -688,4 +768,35 @@ func headStr(s string, n int) string {
 }
 
 // c04Key: classifier of known findings (none at present).
-func c04Key(c C04Case, sig string) string { return "" }
+// c04Key: classifier of known findings. lint.ignore-comment-on-include-dropped applies when the case has the
+// trigger (an end comment directly in front of an include statement), the failure is about verdict or
+// counts, and the same case holds once an ordinary statement separates that comment from the include
+// statement (causal test: the complete check is run on that variant).
+func c04Key(c C04Case, sig string) string {
+	if !c.DirBeforeInclude || (sig != "exit" && sig != "counts" && sig != "counts-differ") {
+		return ""
+	}
+	ls := strings.Split(c.Main, "\n")
+	healed := false
+	for i := 0; i+1 < len(ls); i++ {
+		if strings.Contains(ls[i], "falco-ignore-end") && strings.HasPrefix(strings.TrimSpace(ls[i+1]), "include ") {
+			ls = append(ls[:i+1:i+1], append([]string{"  set req.http.X-Sep = \"1\";"}, ls[i+1:]...)...)
+			healed = true
+			break
+		}
+	}
+	if !healed {
+		return ""
+	}
+	h := c
+	h.Main = strings.Join(ls, "\n")
+	h.DirBeforeInclude = false
+	raw, err := json.Marshal(h)
+	if err != nil {
+		return ""
+	}
+	if r := checkC04(raw); r.Status == iso.OK {
+		return "lint.ignore-comment-on-include-dropped"
+	}
+	return ""
+}
